@@ -102,6 +102,69 @@ def _make_resource(r, idx, kind, classes, calls):
     return inst
 
 
+class C20Text(str):
+    """a str subclass (a text payload type of the application): a message of class C20Text, whatever it spells"""
+
+
+FN_KINDS = ["function", "partial", "callable-object", "inbox-list", "inbox-deque", "len0-object", "bool-false-object"]
+
+
+def _fn_handler(r, kind, calls, owner_id, mname):
+    """a handler for register_function(): "fn" is any callable - a plain function, a functools.partial, or a callable OBJECT;
+    callable objects may be containers (an inbox that queues what it is called with: empty, hence falsy, until the first
+    delivery) or define __len__ / __bool__ for reasons of their own.  Returns (callable, kind label)."""
+    import functools
+    how = r.choice(FN_KINDS)
+
+    def record(*args):
+        calls.append((owner_id, mname, args))
+    if how == "function":
+        if kind == "server":
+            def fn(client, seqnum, msg):
+                record(client, seqnum, msg)
+        else:
+            def fn(seqnum, msg):
+                record(seqnum, msg)
+        return fn, how
+    if how == "partial":
+        return functools.partial(lambda tag, *args: record(*args), "tag"), how
+    cls_ = _FN_CLASSES[how]
+    obj = cls_()
+    obj._record = record
+    return obj, how
+
+
+class _Inbox(list):
+    def __call__(self, *args):
+        self.append(args)
+        self._record(*args)
+
+
+class _InboxQ(__import__("collections").deque):
+    def __call__(self, *args):
+        self.append(args)
+        self._record(*args)
+
+
+class _CallableObject(object):
+    def __call__(self, *args):
+        self._record(*args)
+
+
+class _Len0Object(_CallableObject):
+    def __len__(self):
+        return 0
+
+
+class _BoolFalseObject(_CallableObject):
+    def __bool__(self):
+        return False
+
+
+_FN_CLASSES = {"inbox-list": _Inbox, "inbox-deque": _InboxQ, "callable-object": _CallableObject,
+               "len0-object": _Len0Object, "bool-false-object": _BoolFalseObject}
+
+
 UNKNOWN = "?"
 RAISE = [None]               # the exception object the next invoked handler raises (after recording the call)
 REENTER = [None]             # a callable the next invoked handler runs from inside (re-entrant use of the dispatcher)
@@ -264,10 +327,53 @@ def run_case(r, kind, counters, trace):
         return None
 
     ever_unregistered = set()
+    fn_objs = {}                 # holder idx -> (handler object given to register_function, kind label)
+
+    def do_dispatch_nonmessage(cls):
+        """dispatch() of an object whose CLASS nobody registered for (str, a str subclass, bytes, the metaclass of the message
+        classes) but whose VALUE spells / is a message class: routing is by the class of the message, so DispatchError, no call"""
+        from mpgameserver import SeqNum
+        name = cls.__name__
+        form = r.choice(["str", "str-subclass", "class-object", "bytes", "str-other"])
+        if form == "str":
+            msg = str(name)
+        elif form == "str-subclass":
+            msg = C20Text(name)
+        elif form == "class-object":
+            msg = cls
+        elif form == "bytes":
+            msg = name.encode()
+        else:
+            msg = r.choice([name.lower(), name + " ", "", "Other", "str", "type"])
+        label = "%s %r" % (form, msg if form != "class-object" else name)
+        trace.append("dispatch-nonmessage(%s)" % label)
+        if type(msg).__name__ in model or type(msg).__name__ in unknown:
+            return None              # (cannot happen with the class pool of this check)
+        args = (object(), SeqNum(r.randint(1, 65535)), msg) if kind == "server" else (SeqNum(r.randint(1, 65535)), msg)
+        calls.clear()
+        RAISE[0] = None
+        REENTER[0] = None
+        err = None
+        try:
+            disp.dispatch(*args)
+        except D.DispatchError as e:
+            err = e
+        except Exception as e:
+            return viol("dispatch-raised-other", "dispatch of a %s object (%s) raised %r instead of DispatchError" % (type(msg).__name__, label, e))
+        if calls:
+            return viol("dispatch-routed-by-value-not-class", "dispatch of a %s object (%s): no handler is registered for class %s, but handler %s was invoked with it%s" % (
+                type(msg).__name__, label, type(msg).__name__, calls[0][1], "" if err is None else " (and DispatchError raised)"))
+        if err is None:
+            return viol("dispatch-no-error", "dispatch of a %s object (%s): no handler is registered for class %s, but no DispatchError" % (
+                type(msg).__name__, label, type(msg).__name__))
+        counters.inc("nonmessage_dispatch_ok")
+        if form in ("str", "str-subclass", "class-object") and name in model and name not in unknown:
+            counters.inc("nonmessage_dispatch_naming_registered_class")
+        return None
 
     for step in range(N_OPS):
-        op = r.choices(["register", "unregister", "dispatch", "dispatch_foreign", "reg_fn", "unreg_fn"],
-                       weights=[5, 4, 8, 1, 1, 1])[0]
+        op = r.choices(["register", "unregister", "dispatch", "dispatch_foreign", "reg_fn", "unreg_fn", "dispatch_nonmessage"],
+                       weights=[5, 4, 8, 1, 1, 1, 1])[0]
         if op == "register":
             res = r.choice(resources)
             trace.append("register(Res%d%s)" % (res._idx, [(n, s) for n, _, s in res._handled]))
@@ -355,6 +461,10 @@ def run_case(r, kind, counters, trace):
             v = do_dispatch(Foreign)
             if v:
                 return v
+        elif op == "dispatch_nonmessage":
+            v = do_dispatch_nonmessage(r.choice(classes + [Foreign]))
+            if v:
+                return v
         elif op == "reg_fn":
             cls = r.choice(classes)
             name = cls.__name__
@@ -367,12 +477,9 @@ def run_case(r, kind, counters, trace):
             holder._handled = []
             resources.append(holder)
             mname = "fn_%d" % step
-            if kind == "server":
-                def fn(client, seqnum, msg, _h=holder, _m=mname):
-                    calls.append((id(_h), _m, (client, seqnum, msg)))
-            else:
-                def fn(seqnum, msg, _h=holder, _m=mname):
-                    calls.append((id(_h), _m, (seqnum, msg)))
+            fn, fn_kind = _fn_handler(r, kind, calls, id(holder), mname)
+            trace[-1] += "[%s]" % fn_kind
+            fn_objs[holder._idx] = (fn, fn_kind)
             try:
                 disp.register_function(key, fn)
                 raised = None
@@ -395,6 +502,8 @@ def run_case(r, kind, counters, trace):
             trace.append("unregister_function(%s,%s)" % (name, "class" if key is cls else "str"))
             if name in unknown:
                 continue
+            held = fn_objs.get(model[name][0]) if name in model else None
+            held_falsy = held is not None and not held[0]
             try:
                 disp.unregister_function(key)
                 raised = None
@@ -404,7 +513,10 @@ def run_case(r, kind, counters, trace):
             if name in model:
                 if raised is not None:
                     return viol("unregister_function-raises-registered",
-                                "unregister_function(%s) raised %r although a handler is registered" % (name, raised))
+                                "unregister_function(%s) raised %r although a handler is registered%s" % (
+                                    name, raised, " (a %s given to register_function%s)" % (held[1], ", falsy at this moment" if held_falsy else "") if held else ""))
+                if held_falsy:
+                    counters.inc("unregister_function_of_falsy_handler")
                 del model[name]
                 ever_unregistered.add(name)
                 counters.inc("unregister_effective")
@@ -556,12 +668,63 @@ def run_case(r, kind, counters, trace):
         counters.inc("growing_resource_cycles")
     except D.DispatchError as e:
         return viol("dispatch-error-for-registered", "growing resource: DispatchError(%s) although its handler is registered" % (e,))
+    # ---- register_function / unregister_function as inverses for every kind of callable: a function, a partial, a callable
+    #      object - also one that is a container (an inbox, empty until the first delivery) or is falsy for its own reasons
+    for _cycle in range(1 if r.random() < 0.5 else 0):        # (in half of the sequences)
+        disp5 = D.ServerMessageDispatcher() if kind == "server" else D.ClientMessageDispatcher()
+        cls_f = r.choice(list(_msg_classes()[0]))
+        key_of = lambda: cls_f if r.random() < 0.5 else cls_f.__name__
+        own_f = object()
+        fn1, fn1_kind = _fn_handler(r, kind, calls, id(own_f), "fn_first")
+        fn2, fn2_kind = _fn_handler(r, kind, calls, id(own_f), "fn_second")
+        deliveries = r.choice([0, 0, 1, 2])
+        trace.append("function-handler-cycle(%s, %s, %d deliveries, then %s)" % (cls_f.__name__, fn1_kind, deliveries, fn2_kind))
+        try:
+            disp5.register_function(key_of(), fn1)
+            for _ in range(deliveries):
+                calls.clear()
+                args_f = mk(cls_f)
+                disp5.dispatch(*args_f)
+                if [c_[1] for c_ in calls] != ["fn_first"] or any(a is not b for a, b in zip(calls[0][2], args_f)):
+                    return viol("dispatch-wrong-handler", "a %s given to register_function(%s): dispatch invoked %r" % (fn1_kind, cls_f.__name__, [c_[1] for c_ in calls]))
+            falsy_now = not fn1
+            try:
+                disp5.unregister_function(key_of())
+            except Exception as e:
+                return viol("unregister_function-raises-registered", "unregister_function(%s) raised %r although a handler (a %s%s, after %d deliveries) is registered" % (
+                    cls_f.__name__, e, fn1_kind, ", falsy at this moment" if falsy_now else "", deliveries))
+            calls.clear()
+            raised_f = False
+            try:
+                disp5.dispatch(*mk(cls_f))
+            except D.DispatchError:
+                raised_f = True
+            if calls or not raised_f:
+                return viol("dispatch-after-unregister", "a %s given to register_function(%s): after unregister_function dispatch %s" % (
+                    fn1_kind, cls_f.__name__, "still invokes it" if calls else "raises nothing"))
+            try:
+                disp5.register_function(key_of(), fn2)
+            except Exception as e:
+                return viol("reregister-refused", "register_function(%s) after unregister_function raised %r" % (cls_f.__name__, e))
+            calls.clear()
+            disp5.dispatch(*mk(cls_f))
+            if [c_[1] for c_ in calls] != ["fn_second"]:
+                return viol("dispatch-wrong-handler", "a %s registered after a %s was unregistered: dispatch(%s) invoked %r" % (fn2_kind, fn1_kind, cls_f.__name__, [c_[1] for c_ in calls]))
+            counters.inc("function_handler_cycles")
+            if falsy_now:
+                counters.inc("falsy_function_handler_cycles")
+        except D.DispatchError as e:
+            return viol("dispatch-error-for-registered", "a handler given to register_function(%s): DispatchError(%s) although it is registered" % (cls_f.__name__, e))
     # final sweep: probe every class
     for cls in classes:
         trace.append("final-dispatch(%s)" % cls.__name__)
         v = do_dispatch(cls)
         if v:
             return v
+        if r.random() < 0.5:
+            v = do_dispatch_nonmessage(cls)
+            if v:
+                return v
     return None
 
 
@@ -598,14 +761,17 @@ def run_shard(cfg):
 def finish(tier, seed, results):
     m = merge(results)
     inconclusive = []
-    need(m["counters"], ["sole_owner_dispatch_ok", "dispatch_with_raising_handler", "reentrant_dispatches", "qualified_annotation_cycles", "dispatch_registered_ok", "dispatch_unregistered_ok", "duplicate_register",
+    need(m["counters"], ["sole_owner_dispatch_ok", "dispatch_with_raising_handler", "reentrant_dispatches", "qualified_annotation_cycles", "dispatch_registered_ok",
+                         "nonmessage_dispatch_naming_registered_class", "falsy_function_handler_cycles", "unregister_function_of_falsy_handler", "dispatch_unregistered_ok", "duplicate_register",
                          "unregister", "register"], inconclusive)
     cov = {
         "evaluations": m["evaluations"],
         "distinct_nontrivial": m["distinct_nontrivial"],
         "rule": "one evaluation = one seeded sequence of %d register/unregister/dispatch/register_function/"
                 "unregister_function operations (plus a final probe of every class) over 1-4 resources x 1-5 "
-                "message classes, class and string annotations, alternating server and client dispatcher; "
+                "message classes, class and string annotations, function / partial / callable-object (also falsy) handlers for "
+                "register_function, dispatch of str / str-subclass / bytes / class objects that spell a message class, "
+                "alternating server and client dispatcher; "
                 "non-trivial = contains at least one unregister and one dispatch; distinct = distinct "
                 "operation traces (hash of the trace)" % N_OPS,
         "samples": m["samples"],
